@@ -69,7 +69,8 @@ def tpl_req(size, simple, n1, sh, bad, n2, x3, a3, x4, a4, x5, a5, t, _twin=Fals
             if simple:
                 it.start(n2)
             else:
-                it.apply(n2, args=(B,), kwargs={"z": A})
+                # the competing request's function returns non-native Coroutine objects
+                it.apply(n2, args=(B,), kwargs={"z": A}, proxy=True)
             drive(w, it, ALPHA, [(NOP, 0), (x3, a3), (x4, a4), (x5, a5)], 0, None)
         except Excluded as e:
             w.excluded = str(e)
